@@ -1,5 +1,6 @@
 (** * Oracle: proofs about export / validate / import (C12) *)
 From Irismod Require Import Genesis.Oracle.
+From Coq Require Import ZifyBool.
 
 Ltac split_andb H :=
   repeat match type of H with
@@ -17,8 +18,8 @@ Proof.
 Qed.
 
 (** the feeds (and nothing else) that the import loop leaves in the feed store *)
-Lemma imp_entries_feeds e g : forall s0 s',
-  imp_entries e g s0 = Some s' ->
+Lemma imp_entries_feeds fx e g : forall s0 s',
+  imp_entries fx e g s0 = Some s' ->
   feeds s' = fold_left (fun m f => oins lt1 (o_name f) f m) (map (fun en => fst (fst en)) g) (feeds s0).
 Proof.
   induction g as [|[[f st] vl] g IH]; intros s0 s' Himp; simpl in *.
@@ -37,12 +38,12 @@ Proof.
 Qed.
 
 (** what does survive export -> import: the feeds themselves (name, aggregation, history length, creator, context) *)
-Lemma oracle_feeds_preserved_lemma eA eB s s' :
+Lemma oracle_feeds_preserved_lemma fx eA eB s s' :
   invb s = true -> (forall f, In f (feeds s) -> has (o_ctx (snd f)) eA = true) ->
-  import eB (export eA s) = Some s' -> feeds s' = feeds s.
+  import fx eB (export eA s) = Some s' -> feeds s' = feeds s.
 Proof.
   intros Hinv Hctx Himp. unfold import in Himp. destruct (validate (export eA s)); [|discriminate]. simpl in Himp.
-  rewrite (imp_entries_feeds _ _ _ _ Himp). simpl. rewrite (export_feeds eA s Hctx).
+  rewrite (imp_entries_feeds _ _ _ _ _ Himp). simpl. rewrite (export_feeds eA s Hctx).
   unfold invb in Hinv. split_andb Hinv.
   change (fold_left (fun m f => oins lt1 (o_name f) f m) (map snd (feeds s)) []) with (okeyed lt1 o_name (map snd (feeds s))).
   apply okeyed_roundtrip1; [exact Hinv|].
@@ -50,8 +51,8 @@ Proof.
 Qed.
 
 (** import is total on a validated genesis exactly when the service module of the new chain knows every context *)
-Lemma imp_entries_total e g : forall s0,
-  (forall en, In en g -> has (o_ctx (fst (fst en))) e = true) -> imp_entries e g s0 <> None.
+Lemma imp_entries_total fx e g : forall s0,
+  (forall en, In en g -> has (o_ctx (fst (fst en))) e = true) -> imp_entries fx e g s0 <> None.
 Proof.
   induction g as [|[[f st] vl] g IH]; intros s0 Hall; simpl; [discriminate|].
   pose proof (Hall _ (or_introl eq_refl)) as Hf. simpl in Hf. unfold has in Hf.
@@ -59,8 +60,8 @@ Proof.
   apply IH. intros en Hin. apply Hall. right. exact Hin.
 Qed.
 
-Lemma oracle_import_total_partial_lemma e g :
-  validate g = true -> (forall en, In en g -> has (o_ctx (fst (fst en))) e = true) -> import e g <> None.
+Lemma oracle_import_total_partial_lemma fx e g :
+  validate g = true -> (forall en, In en g -> has (o_ctx (fst (fst en))) e = true) -> import fx e g <> None.
 Proof. intros Hv Hall. unfold import. rewrite Hv. simpl. apply imp_entries_total. exact Hall. Qed.
 
 (** ** Refutations (witness = the state of corpus/C12/oracle-value-history-lost.jsonl) *)
@@ -73,25 +74,243 @@ Definition wit_s' : state := mkState [(0, wit_feed)] [(0, 0)] [(0, [(2, (3, 1700
     does not know the feed's request context (which is the case whenever the service genesis exported with
     it could not be imported) *)
 Lemma oracle_import_total_refuted_lemma :
-  exists eA eB s, invb s = true /\ validate (export eA s) = true /\ import eB (export eA s) = None.
+  exists eA eB s, invb s = true /\ validate (export eA s) = true /\ import true eB (export eA s) = None.
 Proof. exists wit_env, [], wit_s. repeat split; vm_compute; reflexivity. Qed.
 
 (** ... and does not when it knows them all *)
-Lemma oracle_import_total_partial_reachable_lemma eA eB s :
+Lemma oracle_import_total_partial_reachable_lemma fx eA eB s :
   invb s = true -> (forall f, In f (feeds s) -> has (o_ctx (snd f)) eB = true) ->
-  import eB (export eA s) <> None.
+  import fx eB (export eA s) <> None.
 Proof.
   intros Hinv Hctx. apply oracle_import_total_partial_lemma; [apply oracle_export_validates_lemma; exact Hinv|].
   intros en Hin. unfold export in Hin. apply in_flat_map in Hin. destruct Hin as (f & Hf & Hen).
   destruct (get (o_ctx (snd f)) eA) as [[st bc]|]; [|destruct Hen]. destruct Hen as [<-|[]]. simpl. apply Hctx. exact Hf.
 Qed.
 
-(** every exported value of a feed is stored under the same key: only the OLDEST survives *)
+(** the code as it was ([import false]): every exported value of a feed is stored under the same key, only the
+    OLDEST survives *)
 Lemma oracle_export_fixpoint_refuted_lemma :
-  exists e s s', invb s = true /\ import e (export e s) = Some s' /\ export e s' <> export e s.
+  exists e s s', invb s = true /\ import false e (export e s) = Some s' /\ export e s' <> export e s.
 Proof. exists wit_env, wit_s, wit_s'. repeat split; vm_compute; try reflexivity. discriminate. Qed.
 
 Lemma oracle_queries_preserved_refuted_lemma :
-  exists e s s', invb s = true /\ import e (export e s) = Some s'
+  exists e s s', invb s = true /\ import false e (export e s) = Some s'
                  /\ values_of s 0 = [(4, 1700000020); (3, 1700000010)] /\ values_of s' 0 = [(3, 1700000010)].
 Proof. exists wit_env, wit_s, wit_s'. repeat split; vm_compute; reflexivity. Qed.
+
+Lemma NoDup_get_some_local {K V} `{EqDec K} (m : list (K * V)) k v : NoDup (map fst m) -> In (k, v) m -> get k m = Some v.
+Proof.
+  induction m as [|[k0 v0] m IH]; simpl; intros Hnd Hin; [contradiction|].
+  inversion Hnd as [|? ? Hn Hnd']; subst. destruct (eq_dec k k0) as [->|Hne].
+  - destruct Hin as [Heq|Hin]; [congruence|]. exfalso. apply Hn. apply (in_map fst _ (k0, v)). exact Hin.
+  - destruct Hin as [Heq|Hin]; [congruence|]. apply IH; assumption.
+Qed.
+
+(** ** The repaired import ([import true]): the value history survives *)
+Fixpoint rekey (k : Z) (l : list value) : list (Z * value) :=
+  match l with [] => [] | v :: l' => (k, v) :: rekey (k + 1) l' end.
+
+Lemma rekey_vals k l : map snd (rekey k l) = l.
+Proof. revert k. induction l as [|v l IH]; intros k; simpl; [reflexivity|]. rewrite IH. reflexivity. Qed.
+Lemma rekey_length k l : length (rekey k l) = length l.
+Proof. revert k. induction l as [|v l IH]; intros k; simpl; [reflexivity|]. rewrite IH. reflexivity. Qed.
+Lemma rekey_app k a v : rekey k (a ++ [v]) = rekey k a ++ [(k + Z.of_nat (length a), v)].
+Proof.
+  revert k. induction a as [|x a IH]; intros k.
+  - simpl. rewrite Z.add_0_r. reflexivity.
+  - cbn [app rekey]. rewrite IH.
+    replace (k + Z.of_nat (length (x :: a))) with (k + 1 + Z.of_nat (length a)) by (change (length (x :: a)) with (S (length a)); rewrite Nat2Z.inj_succ; lia). reflexivity.
+Qed.
+Lemma rekey_keys_lt k l : Forall (fun a => lt1 (fst a) (k + Z.of_nat (length l)) = true) (rekey k l).
+Proof.
+  revert k. induction l as [|v l IH]; intros k; cbn [rekey]; [constructor|].
+  change (length (v :: l)) with (S (length l)). rewrite Nat2Z.inj_succ. constructor.
+  - cbn [fst]. unfold lt1. lia.
+  - specialize (IH (k + 1)). eapply Forall_impl; [|exact IH]. intros a Ha. cbn beta in Ha. unfold lt1 in *. lia.
+Qed.
+
+Lemma getd_oins_same {V} k (v d : V) m : getd k (oins lt1 k v m) d = v.
+Proof. unfold getd. rewrite get_oins_same. reflexivity. Qed.
+
+Lemma set_value_other vs X Y k latest v : Y <> X -> get Y (set_value vs X k latest v) = get Y vs.
+Proof. intros Hne. unfold set_value. apply get_oins_other. exact Hne. Qed.
+
+Lemma imp_feed_values_other fx vs X Y bc latest vl : Y <> X -> get Y (imp_feed_values fx vs X bc latest vl) = get Y vs.
+Proof.
+  intros Hne. unfold imp_feed_values. destruct fx.
+  - generalize (if bc + 1 <? Z.of_nat (length vl) then Z.of_nat (length vl) - 1 else bc) as base. intros base.
+    generalize (base - (Z.of_nat (length vl) - 1)) as k0. generalize (rev vl) as l. intros l.
+    revert vs. induction l as [|v l IH]; intros vs k0; simpl; [reflexivity|].
+    rewrite IH. simpl. apply set_value_other. exact Hne.
+  - revert vs. induction vl as [|v l IH]; intros vs; simpl; [reflexivity|]. rewrite IH. apply set_value_other. exact Hne.
+Qed.
+
+(** the insertion loop of one feed: nothing is trimmed while the history fits *)
+Lemma fold_set_value X latest k0 l : forall done m,
+  getd X m [] = rekey k0 done -> Z.of_nat (length done) + Z.of_nat (length l) <= latest ->
+  getd X (fst (fold_left (fun mk v => (set_value (fst mk) X (snd mk) latest v, snd mk + 1)) l
+                         (m, k0 + Z.of_nat (length done)))) [] = rekey k0 (done ++ l).
+Proof.
+  induction l as [|v l IH]; intros done m Hm Hlen; simpl fold_left.
+  - rewrite app_nil_r. exact Hm.
+  - cbn [fst snd]. simpl length in Hlen.
+    assert (Hstep : getd X (set_value m X (k0 + Z.of_nat (length done)) latest v) [] = rekey k0 (done ++ [v])).
+    { unfold set_value. rewrite getd_oins_same. rewrite Hm, rekey_length.
+      assert (Hdrop : Z.to_nat (Z.max 0 (Z.of_nat (length done) - latest + 1)) = O) by lia. rewrite Hdrop. simpl skipn.
+      rewrite (oins_last lt1 lt1_irrefl lt1_asym _ _ _ (rekey_keys_lt k0 done)). rewrite rekey_app. reflexivity. }
+    specialize (IH (done ++ [v]) _ Hstep). rewrite app_length in IH. simpl length in IH.
+    replace (k0 + Z.of_nat (length done + 1)) with (k0 + Z.of_nat (length done) + 1) in IH by lia.
+    rewrite IH by lia. rewrite <- app_assoc. reflexivity.
+Qed.
+
+Lemma imp_feed_values_same vs X bc latest vl :
+  getd X vs [] = [] -> Z.of_nat (length vl) <= latest ->
+  rev (map snd (getd X (imp_feed_values true vs X bc latest vl) [])) = vl.
+Proof.
+  intros Hm Hlen. unfold imp_feed_values.
+  set (base := if bc + 1 <? Z.of_nat (length vl) then Z.of_nat (length vl) - 1 else bc).
+  pose proof (fold_set_value X latest (base - (Z.of_nat (length vl) - 1)) (rev vl) [] vs) as H.
+  simpl in H. rewrite Z.add_0_r in H. rewrite H; [|exact Hm|rewrite rev_length; lia].
+  rewrite rekey_vals, rev_involutive. reflexivity.
+Qed.
+
+(** the whole import loop: every entry's feed reads its exported values, the others are untouched *)
+Lemma imp_entries_values e g : forall s0 s',
+  imp_entries true e g s0 = Some s' ->
+  NoDup (map (fun en => o_name (fst (fst en))) g) ->
+  (forall en, In en g -> getd (o_name (fst (fst en))) (vals s0) [] = []
+                         /\ Z.of_nat (length (snd en)) <= o_latest (fst (fst en))) ->
+  (forall en, In en g -> values_of s' (o_name (fst (fst en))) = snd en)
+  /\ (forall Y, ~ In Y (map (fun en => o_name (fst (fst en))) g) -> get Y (vals s') = get Y (vals s0)).
+Proof.
+  induction g as [|[[f st] vl] g IH]; intros s0 s' Himp Hnd Hpre; cbn [imp_entries] in Himp.
+  - inversion Himp; subst. split; [intros en []|reflexivity].
+  - destruct (get (o_ctx f) e) as [[st' bc]|]; [|discriminate].
+    simpl in Hnd. inversion Hnd as [|? ? Hn Hnd']; subst.
+    destruct (Hpre _ (or_introl eq_refl)) as [Hf0 Hf1]. simpl in Hf0, Hf1.
+    match type of Himp with imp_entries _ _ _ ?st1 = _ => set (s1 := st1) in * end.
+    assert (Hpre1 : forall en, In en g -> getd (o_name (fst (fst en))) (vals s1) [] = []
+                                          /\ Z.of_nat (length (snd en)) <= o_latest (fst (fst en))).
+    { intros en Hin. destruct (Hpre en (or_intror Hin)) as [A B]. split; [|exact B].
+      unfold s1, getd. cbn [vals]. rewrite imp_feed_values_other; [exact A|].
+      intros Heq. apply Hn. rewrite <- Heq. apply (in_map (fun en0 => o_name (fst (fst en0)))). exact Hin. }
+    destruct (IH s1 s' Himp Hnd' Hpre1) as [Hin1 Hout1]. split.
+    + intros en [<-|Hin]; [|apply Hin1; exact Hin]. simpl.
+      unfold values_of, getd. rewrite (Hout1 (o_name f) Hn). unfold s1. cbn [vals].
+      apply (imp_feed_values_same (vals s0) (o_name f) bc (o_latest f) vl Hf0 Hf1).
+    + intros Y HY. simpl in HY. rewrite Hout1 by tauto. unfold s1. cbn [vals].
+      apply imp_feed_values_other. intros Heq. apply HY. left. symmetry. exact Heq.
+Qed.
+
+(** every feed's value history (newest first) reads the same after export -> import *)
+Lemma oracle_values_preserved_lemma e s s' :
+  invb s = true -> (forall f, In f (feeds s) -> has (o_ctx (snd f)) e = true) ->
+  import true e (export e s) = Some s' ->
+  feeds s' = feeds s /\ forall f, In f (feeds s) -> values_of s' (fst f) = values_of s (fst f).
+Proof.
+  intros Hinv Hctx Himp. split; [exact (oracle_feeds_preserved_lemma true e e s s' Hinv Hctx Himp)|].
+  unfold import in Himp. destruct (validate (export e s)); [|discriminate]. simpl in Himp.
+  pose proof Hinv as Hinv0. unfold invb in Hinv. split_andb Hinv.
+  rename Hinv into Hfs, Hi6 into Hfk, Hi3 into Hvals.
+  assert (Hnames : map (fun en => o_name (fst (fst en))) (export e s) = map fst (feeds s)).
+  { rewrite <- (map_map (fun en => fst (fst en)) o_name). rewrite (export_feeds e s Hctx).
+    rewrite map_map. apply map_ext_in. intros f Hf. rewrite forallb_forall in Hfk. specialize (Hfk f Hf).
+    apply andb_true_iff in Hfk. lia. }
+  destruct (imp_entries_values e (export e s) _ s' Himp) as [Hvs _].
+  - rewrite Hnames. apply (sorted_keys_NoDup lt1 lt1_irrefl). apply (sortedb_sorted lt1 lt1_trans). exact Hfs.
+  - intros en Hen. split; [reflexivity|]. unfold export in Hen. apply in_flat_map in Hen. destruct Hen as (f & Hf & Hen).
+    destruct (get (o_ctx (snd f)) e) as [[st bc]|]; [|destruct Hen]. destruct Hen as [<-|[]]. simpl.
+    unfold values_of. rewrite rev_length, map_length. unfold getd.
+    rewrite forallb_forall in Hfk. pose proof (Hfk f Hf) as Hk. apply andb_true_iff in Hk. destruct Hk as [Hk Hok].
+    destruct (get (fst f) (vals s)) as [inner|] eqn:Eg.
+    + apply get_In in Eg. rewrite forallb_forall in Hvals. specialize (Hvals _ Eg). simpl in Hvals. split_andb Hvals.
+      assert (Hgf : get (fst f) (feeds s) = Some (snd f)).
+      { apply NoDup_get_some_local; [apply (sorted_keys_NoDup lt1 lt1_irrefl); apply (sortedb_sorted lt1 lt1_trans); exact Hfs|].
+        destruct f; exact Hf. }
+      match goal with Hm : context [get (fst f) (feeds s)] |- _ => rewrite Hgf in Hm; lia end.
+    + simpl. unfold feed_ok in Hok. split_andb Hok. lia.
+  - intros f Hf. pose proof (Hctx f Hf) as Hc. unfold has in Hc.
+    destruct (get (o_ctx (snd f)) e) as [[st bc]|] eqn:Ec; [|discriminate].
+    assert (Hen : In (snd f, st, values_of s (fst f)) (export e s)).
+    { unfold export. apply in_flat_map. exists f. split; [exact Hf|]. rewrite Ec. left. reflexivity. }
+    specialize (Hvs _ Hen). simpl in Hvs.
+    rewrite forallb_forall in Hfk. specialize (Hfk f Hf). apply andb_true_iff in Hfk. destruct Hfk as [Hk _].
+    assert (Hname : o_name (snd f) = fst f) by lia. rewrite Hname in Hvs. exact Hvs.
+Qed.
+
+Lemma flat_map_ext_in_local {A B} (f g : A -> list B) l : (forall a, In a l -> f a = g a) -> flat_map f l = flat_map g l.
+Proof.
+  induction l as [|a l IH]; intros Hfg; simpl; [reflexivity|].
+  rewrite (Hfg a (or_introl eq_refl)), IH; [reflexivity|]. intros x Hx. apply Hfg. right. exact Hx.
+Qed.
+
+Lemma oracle_export_fixpoint_lemma e s :
+  invb s = true -> (forall f, In f (feeds s) -> has (o_ctx (snd f)) e = true) ->
+  exists s', import true e (export e s) = Some s' /\ export e s' = export e s.
+Proof.
+  intros Hinv Hctx. destruct (import true e (export e s)) as [s'|] eqn:E.
+  - exists s'. split; [reflexivity|]. destruct (oracle_values_preserved_lemma e s s' Hinv Hctx E) as [Hf Hv].
+    unfold export. rewrite Hf. apply flat_map_ext_in_local. intros f Hfin.
+    destruct (get (o_ctx (snd f)) e) as [[st bc]|]; [|reflexivity]. rewrite (Hv f Hfin). reflexivity.
+  - exfalso. exact (oracle_import_total_partial_reachable_lemma true e e s Hinv Hctx E).
+Qed.
+
+(** ** after PrepForZeroHeightGenesis: every running feed is moved to the other queue; the state is again a
+    reachable-looking one, so the theorems apply to it (with the service contexts as they are after the service
+    module's own preparation: all paused, which is what makes the pair importable) *)
+Lemma oins_total_sorted1 {V} k (v : V) m : sortedb lt1 m = true -> sortedb lt1 (oins lt1 k v m) = true.
+Proof.
+  intros Hs. apply (sortedb_sorted lt1 lt1_trans) in Hs.
+  assert (Hgen : forall m0, sorted lt1 m0 -> sorted lt1 (oins lt1 k v m0)).
+  { clear. unfold sorted. induction m0 as [|[k' v'] m0 IH]; simpl; intros Hs; [constructor; constructor|].
+    inversion Hs as [|? ? Hs' Hall]; subst. destruct (eq_dec k k') as [->|Hne]; [constructor; assumption|].
+    destruct (lt1 k k') eqn:E.
+    - constructor; [exact Hs|]. constructor; [exact E|]. rewrite Forall_forall in *. intros x Hx.
+      specialize (Hall x Hx). unfold klt, lt1 in *. simpl in *. lia.
+    - constructor; [apply IH; exact Hs'|]. rewrite Forall_forall in *. intros x Hx.
+      apply In_oins_inv in Hx. destruct Hx as [->|Hx]; [unfold klt, lt1 in *; simpl in *; lia|apply Hall; exact Hx]. }
+  specialize (Hgen m Hs). clear Hs.
+  unfold sorted in Hgen. induction (oins lt1 k v m) as [|a l IH]; [reflexivity|].
+  inversion Hgen as [|? ? Hs' Hall]; subst. destruct l as [|b l']; [reflexivity|].
+  simpl. inversion Hall as [|? ? Hab _]; subst. unfold klt in Hab. rewrite Hab. simpl. apply IH. exact Hs'.
+Qed.
+
+Lemma get_In_has {V} (k : Z) (v : V) m : In (k, v) m -> match get k m with Some _ => true | None => false end = true.
+Proof.
+  induction m as [|[k0 v0] m IH]; simpl; intros Hin; [contradiction|].
+  destruct (eq_dec k k0); [reflexivity|]. destruct Hin as [Heq|Hin]; [congruence|apply IH; exact Hin].
+Qed.
+
+Lemma has_fold_oins_unit (l : list (Z * unit)) : forall acc k,
+  has k (fold_left (fun m x => oins lt1 (fst x) tt m) l acc) = has k acc || has k l.
+Proof.
+  induction l as [|[k0 []] l IH]; intros acc k; cbn [fold_left fst]; [unfold has at 3; simpl; rewrite orb_false_r; reflexivity|].
+  rewrite IH. unfold has. cbn [get]. destruct (eq_dec k k0) as [->|Hne].
+  - rewrite get_oins_same. rewrite orb_true_r. reflexivity.
+  - rewrite get_oins_other by exact Hne. reflexivity.
+Qed.
+
+Lemma sortedb_fold_oins_unit (l : list (Z * unit)) : forall acc,
+  sortedb lt1 acc = true -> sortedb lt1 (fold_left (fun m x => oins lt1 (fst x) tt m) l acc) = true.
+Proof. induction l as [|x l IH]; intros acc Hs; simpl; [exact Hs|]. apply IH. apply oins_total_sorted1. exact Hs. Qed.
+
+Lemma oracle_prep_inv_lemma s : invb s = true -> invb (prep s) = true.
+Proof.
+  intros Hinv. unfold invb in *. split_andb Hinv.
+  rename Hinv into H1, Hi6 into H2, Hi5 into H3, Hi4 into H4, Hi3 into H5, Hi2 into H6, Hi1 into H7, Hi0 into H8, Hi into H9.
+  unfold prep. cbn [feeds ctx_idx vals running paused].
+  rewrite H1, H2, H3, H4, H5. cbn [andb sortedb].
+  rewrite (sortedb_fold_oins_unit (running s) (paused s) H7). cbn [andb].
+  apply andb_true_iff. split.
+  - rewrite forallb_forall in *. intros f Hf. specialize (H8 f Hf). unfold has at 1. cbn [get].
+    rewrite has_fold_oins_unit. destruct (has (fst f) (running s)), (has (fst f) (paused s)); simpl in *; congruence.
+  - rewrite forallb_forall in *. intros x Hx. cbn [app] in Hx.
+    assert (Hk : has (fst x) (fold_left (fun m y => oins lt1 (fst y) tt m) (running s) (paused s)) = true).
+    { unfold has. destruct x as [k u]. cbn [fst]. apply (get_In_has k u). exact Hx. }
+    rewrite has_fold_oins_unit in Hk. apply orb_true_iff in Hk.
+    destruct Hk as [Hk|Hk]; unfold has in Hk.
+    + destruct (get (fst x) (paused s)) as [u|] eqn:E; [|discriminate]. apply get_In in E.
+      apply (H9 (fst x, u)). apply in_or_app. right. exact E.
+    + destruct (get (fst x) (running s)) as [u|] eqn:E; [|discriminate]. apply get_In in E.
+      apply (H9 (fst x, u)). apply in_or_app. left. exact E.
+Qed.
